@@ -63,6 +63,7 @@ def cases(tier, seed):
             continue
         for rep in ("sympy", "dense"):
             out.append(dict(st, repr=rep, vset=0, total=3, basis="RL"))
+            out.append(dict(st, repr=rep, vset=1, total=3, basis="RL", lab_herm=True))
     for i, c in enumerate(out):
         c["seed"] = seed
         c["req"] = "asc" if i % 2 == 0 else "desc"
